@@ -13,6 +13,7 @@ from harness.extract import database_client_tr as x_cli
 from harness.extract import database_tick_tr as x_tick
 from harness.extract import database_conn_writers as x_cw
 from harness.extract import database_bot_tr as x_bot
+from harness.extract import database_client_send_tr as x_snd
 from harness.rigs import database as rig
 
 MANIFEST = {
@@ -71,9 +72,20 @@ MANIFEST = {
             "_establish_db_connection, _perform_data_manipulation, _application_loop) is translated (Gen/DatabaseBotTr.lean) and proved "
             "equal, for every bot state and every outcome of its calls, to the closed form State.dmAttack is written in "
             "(C17_tr_dm_advance, C17_tr_dm_loop; likewise the ransomware script's _application_loop / _perform_ransomware_encrypt / "
-            "_establish_db_connection and State.ransom, C17_tr_rs_loop; the step from that closed form to State.dmAttack itself is by the shared helper "
-            "functions dmAdvance / dmRepeatRule and the rig, not a theorem). Tie: regenerated tables (Gen/Database.lean, C17_gen_*), the translated functions "
-            "(59 method instances, one obligation each), and differential rig R-db on real client/server/backup hosts behind a router.",
+            "_establish_db_connection and State.ransom, C17_tr_rs_loop). SECOND SHIFT: (13) the step from the translated loops to the model's "
+            "State-threaded functions is a theorem for every state: State.dmAttack / State.ransom EQUAL the translated loop run against "
+            "the state - its calls (get_new_connection, the query over the bot's connection) answered by the model's own functions in the "
+            "state in which the code makes them, the writes its result flags applied (C17_tr_dm_attack_is_model, C17_tr_ransom_is_model). "
+            "(14) the property's sentences about `_process_sql` are stated branch by branch on the TRANSLATED method "
+            "(C17_gen_process_sql_encrypt / _delete / _select / _insert / _refuses: ENCRYPT leaves the file CORRUPT whatever its health "
+            "was, ...); the translator reads Folder.corrupt() / File.corrupt() off the source (GOOD -> CORRUPT only), and a counter-model "
+            "search over the method's whole domain (120 cells) names the server on which a refuted theorem fails. (15) the SENDING halves "
+            "of DatabaseClient._connect / _query / _disconnect are translated (Gen/DatabaseClientSendTr.lean): the payload key by key is "
+            "Payload.raw of the model's payload, sent to the server address on the client's port, re-attempt with the same ids, "
+            "_disconnect sends before pop / terminate / deactivate (C17_tr_client_*_sends), and the translated dispatcher fed the "
+            "translated client's payload does what the model's Server.receive does (C17_tr_client_to_server). "
+            "Tie: regenerated tables (Gen/Database.lean, C17_gen_*), the translated functions "
+            "(62 method instances, one obligation each), and differential rig R-db on real client/server/backup hosts behind a router.",
     "note": "C17-specific: the network between hosts is abstracted to per-direction reachability flags (validated by the rig "
             "with real ACL rules, NIC state and node power); the FTP transfers are modelled as far as the database uses them "
             "(`ftpSendFile` / `ftpRequestFile`: since round 4 proved equal to the translated FTP code; what stays hand-written is "
@@ -87,7 +99,8 @@ MANIFEST = {
     "design_ref": "5/C17",
 }
 MODULES = ["PrimaiteModel.Props.C17", "PrimaiteModel.Props.C17Gen", "PrimaiteModel.Props.C17Run", "PrimaiteModel.Props.C17Recv", "PrimaiteModel.Props.C17Ftp",
-           "PrimaiteModel.Props.C17Client", "PrimaiteModel.Props.C17Tick", "PrimaiteModel.Props.C17Bot", "PrimaiteModel.Lemmas.DatabaseReach"]
+           "PrimaiteModel.Props.C17Client", "PrimaiteModel.Props.C17Tick", "PrimaiteModel.Props.C17Bot", "PrimaiteModel.Props.C17BotModel", "PrimaiteModel.Props.C17Sql", "PrimaiteModel.Props.C17ClientSend", "PrimaiteModel.Props.C17RecvGuard",
+           "PrimaiteModel.Lemmas.DatabaseReach"]
 EXE = "drv_c17"
 
 
@@ -138,6 +151,125 @@ def _transfer_branch(op: str, prev_digest: str, blocks: dict) -> str:
     return "reply-blocked-no-copy(F-33 path)" if blocks.get(1) else "ok-fresh"
 
 
+def _sql_counter_model(ctx: Ctx) -> None:
+    """Counter-model search for the translated `_process_sql` (second shift): the whole domain the method reads (120 cells) is
+    evaluated on the translated function and on the model by `lake env lean Props/C17SqlCm.lean`; it proves nothing - when
+    `C17_tr_process_sql` checks it finds nothing; when a `C17_gen_process_sql_*` / `C17_tr_process_sql` is refuted it names the server."""
+    name = "model:translated _process_sql agrees with the model on every cell of its domain (counter-model search, 120 cells)"
+    try:
+        import subprocess
+        from harness.lib.core import LEAN
+        if "processSql" in x_tr.FAILED:
+            ctx.oblige(name, "correspondence", False, "not translated: " + x_tr.FAILED["processSql"])
+            return
+        res = subprocess.run(["lake", "env", "lean", "PrimaiteModel/Props/C17SqlCm.lean"], cwd=str(LEAN), stdout=subprocess.PIPE,
+                             stderr=subprocess.STDOUT, text=True, timeout=300)
+        out = res.stdout.splitlines()
+        found = [l for l in out if l.startswith("counter-model ")]
+        tally = [l for l in out if l.startswith("cells=")]
+        ctx.oblige(name, "correspondence", res.returncode == 0 and not found and tally == ["cells=120 differing=0"],
+                   " || ".join(found)[:3000] or res.stdout[-600:])
+        for l in found[:6]:
+            ctx.notes.append("counter-model of the translated _process_sql: " + l[:600])
+        if tally:
+            ctx.notes.append("counter-model search _process_sql: " + tally[0])
+    except Exception as e:  # noqa: BLE001
+        ctx.oblige(name, "correspondence", False, f"{type(e).__name__}: {e}")
+
+
+def _recv_counter_model(ctx: Ctx) -> None:
+    """Counter-model search for the translated `DatabaseService.receive` (second shift, C17-h): 760 cells (node power x operating state
+    x health x file x 19 payloads, on a server holding one kept connection) on the translated dispatcher and on the model."""
+    name = "model:translated receive agrees with the model on every cell (counter-model search, 760 cells, kept connection)"
+    try:
+        import subprocess
+        from harness.lib.core import LEAN
+        if "receive" in x_tr.FAILED or "processSql" in x_tr.FAILED or "processConnect" in x_tr.FAILED:
+            ctx.oblige(name, "correspondence", False, "not translated: " + str({k: v for k, v in x_tr.FAILED.items()})[:600])
+            return
+        res = subprocess.run(["lake", "env", "lean", "PrimaiteModel/Props/C17RecvCm.lean"], cwd=str(LEAN), stdout=subprocess.PIPE,
+                             stderr=subprocess.STDOUT, text=True, timeout=300)
+        out = res.stdout.splitlines()
+        found = [l for l in out if l.startswith("counter-model ")]
+        tally = [l for l in out if l.startswith("cells=")]
+        ctx.oblige(name, "correspondence", res.returncode == 0 and not found and tally == ["cells=760 differing=0"],
+                   " || ".join(found[:4])[:3000] or res.stdout[-600:])
+        for l in found[:4]:
+            ctx.notes.append("counter-model of the translated receive: " + l[:700])
+        if tally:
+            ctx.notes.append("counter-model search receive: " + tally[0])
+    except Exception as e:  # noqa: BLE001
+        ctx.oblige(name, "correspondence", False, f"{type(e).__name__}: {e}")
+
+
+def _direct_receive_oracle(ctx: Ctx) -> None:
+    """Implementation-side oracle (second shift, C17-h): payloads handed DIRECTLY to `DatabaseService.receive`, bypassing the node's
+    port demultiplexer, in every operating state that is not RUNNING (and with the node off): the call must return False and change
+    nothing (connection table, file health, service health, what the service sent).  Independent of what else runs on the node."""
+    from types import SimpleNamespace
+    from harness.lib.core import Rng   # noqa: F401
+    name = "oracle:DatabaseService.receive, called directly while not RUNNING, returns False and changes nothing"
+    bad, n = [], 0
+    try:
+        rng = ctx.rng.fork("direct")
+        sc = rig._Script(rng, "direct", lambda case: (case.update(max=max(case["max"], 3), restart=2),
+                                                       case["clients"][0].update(pw=case["srv_pw"])))
+        with rig.instrumented(sc.rec):
+            w = rig.World(sc.case, sc.rec)
+            sc.emit(w, ["connect", 0])
+            db = w.db
+            kept = list(db.connections)
+            if not kept:
+                ctx.oblige(name, "correspondence", False, "set-up: no connection could be opened")
+                return
+            frame = SimpleNamespace(ip=SimpleNamespace(src_ip_address=w.IPv4Address("10.0.1.10")))
+            halts = {"STOPPED": (db.stop, db.start), "PAUSED": (db.pause, db.resume), "RESTARTING": (db.restart, None),
+                     "DISABLED": (db.disable, lambda: (db.enable(), db.start()))}
+            payloads = [{"type": "connect_request", "password": db.password, "connection_request_id": "r"}]
+            for q in rig.SQL.values():
+                payloads += [{"type": "sql", "sql": q, "uuid": "u", "connection_id": kept[0]},
+                             {"type": "sql", "sql": q, "uuid": "u", "connection_id": "forged"}]
+            payloads += [{"type": "disconnect", "connection_id": kept[0]}, "hello", {"sql": "SELECT", "connection_id": None}, {"type": "ping"}]
+            for state, (halt, back) in halts.items():
+                halt()
+                if db.operating_state.name != state:
+                    bad.append(f"set-up: {state} not reached ({db.operating_state.name})")
+                    continue
+                for pl in payloads:
+                    n += 1
+                    before = (w.digest(), sorted(db.connections), getattr(db.db_file, "health_status", None), db.health_state_actual,
+                              len(sc.rec.__dict__.get("sent", []) or []))
+                    try:
+                        ret = db.receive(payload=dict(pl) if isinstance(pl, dict) else pl, session_id="direct", frame=frame)
+                    except Exception as e:  # noqa: BLE001
+                        ret = f"raised {type(e).__name__}: {e}"
+                    after = (w.digest(), sorted(db.connections), getattr(db.db_file, "health_status", None), db.health_state_actual,
+                             len(sc.rec.__dict__.get("sent", []) or []))
+                    if ret is not False or before != after:
+                        bad.append(f"service {state}, payload {pl!r}: returned {ret!r}" + ("" if before == after else
+                                   f", state changed: {before[0]} -> {after[0]}"))
+                        if getattr(db.db_file, "health_status", None) is not before[2] and db.db_file is not None:
+                            db.db_file.health_status = before[2]
+                    ctx.count(f"direct-receive:{state}")
+                if back is None:
+                    for _ in range(4):
+                        w.do(["tick"])
+                else:
+                    back()
+                if db.operating_state.name != "RUNNING":
+                    bad.append(f"set-up: service did not come back from {state}")
+                    break
+        ctx.oblige(name, "correspondence", not bad and n > 0, " || ".join(bad[:6])[:3000])
+        if bad:
+            ctx.violation({"kind": "direct-receive", "part": "not-running-served"},
+                          "DatabaseService.receive handled a payload while the service was not RUNNING: " + bad[0][:600],
+                          {"case": dict(sc.case, colisten="ntp-client",
+                                        ops=[["connect", 0], ["svc", "stop"], ["hq", 0, "DELETE"], ["hq", 0, "SELECT"]]),
+                           "direct": bad[:20]})
+    except Exception as e:  # noqa: BLE001
+        ctx.oblige(name, "correspondence", False, f"{type(e).__name__}: {e}")
+
+
 def replay(rec: dict) -> bool:
     with lean_lock():
         from harness.lib.core import lake_build
@@ -162,6 +294,9 @@ def run(ctx: Ctx):
         for fname, why in sorted(x_cli.FAILED.items()):
             ctx.oblige(f"translate-client:{fname}", "extractor", False, why)
         ctx.oblige("translate-client:all-10-functions", "extractor", not x_cli.FAILED, "; ".join(sorted(x_cli.FAILED)))
+        ctx.extract(x_snd.GEN_NAME, x_snd.emit)
+        for fname, *_ in x_snd.FUNCS:   # the sending halves of the client (second shift): one obligation per method
+            ctx.oblige(f"translate-client-send:{fname}", "extractor", fname not in x_snd.FAILED, x_snd.FAILED.get(fname, ""))
         ctx.extract(x_cw.GEN_NAME, x_cw.emit)
         ctx.extract(x_bot.GEN_NAME, x_bot.emit)
         for mname in x_bot.ORDER:   # the data-manipulation bot's stage machine (round 7)
@@ -176,6 +311,8 @@ def run(ctx: Ctx):
         for mname, lname, _ in x_tick.FTPC_ROOTS:   # the FTP client's tick and countdown-loading methods
             ctx.oblige(f"translate-tick:ftpc:{mname}", "extractor", "ftpc:" + mname not in x_tick.FAILED, x_tick.FAILED.get("ftpc:" + mname, ""))
         ctx.prove(MODULES, exes=[EXE], clean=False, leanchecker=ctx.thorough)
+        _sql_counter_model(ctx)
+        _recv_counter_model(ctx)
     ctx.cov["rule"] = ("case = (number of clients 1..4, session limit, passwords, durations, ransomware presence, op sequence over "
                        "connect / handle+raw+native query / disconnect / forged+foreign ids / execute / uninstall+install / "
                        "service requests / backup / restore / file damage / node power / FTP server stop / per-direction ACL blocks / "
@@ -227,6 +364,12 @@ def run(ctx: Ctx):
         case, impl = rig.gen_sqlgrid_and_run(rng2, f, h, q)
         cases.append((f"sqlgrid:{f}:{h}:{q}", case))
         pre[f"sqlgrid:{f}:{h}:{q}"] = impl
+    # co-listener grid (second shift): listener (4 shipped classes) x halt (4) x query (6) = 96 cells, ENUMERATED
+    for l, h, q in rig.COLISTEN_ALL:
+        case, impl = rig.gen_colisten_and_run(rng2, l, h, q)
+        cases.append((f"colisten:{l}:{h}:{q}", case))
+        pre[f"colisten:{l}:{h}:{q}"] = impl
+        ctx.count(f"colisten:{l}:{h}")
     for sp, cp in rig.PWGRID_ALL:
         case, impl = rig.gen_pwgrid_and_run(rng2, sp, cp)
         cases.append((f"pwgrid:{sp}:{cp}", case))
@@ -341,4 +484,5 @@ def run(ctx: Ctx):
                       f"database answer/state differs from the proved model at op {i2} ({lines2[i2] if i2 < len(lines2) else '?'}): "
                       f"impl={impl2[i2] if i2 < len(impl2) else None!r} model={model2[i2] if i2 < len(model2) else None!r}",
                       {"case": small, "lines": lines2, "impl": impl2, "model": model2, "first_diff": i2, "from": name})
+    _direct_receive_oracle(ctx)
     ctx.oblige("rig:R-db agrees on every trace", "correspondence", agree == len(cases), f"{len(cases) - agree} of {len(cases)} traces disagree")
